@@ -6,6 +6,8 @@ import (
 	"sort"
 
 	"golang.org/x/tools/go/types/typeutil"
+
+	"hzcheck/core"
 )
 
 func calleeOf(info *types.Info, call *ast.CallExpr) *types.Func {
@@ -42,4 +44,32 @@ func inlineWhen(info *types.Info, isCall func(*types.Func) bool, isNode func(ast
 		cache[d] = found
 		return found
 	}
+}
+
+// withHelpers returns fi followed by the same-package functions it calls, transitively up to
+// depth levels: the bodies a rule with callee inlining looks through. Used for instance
+// counts, so that moving a counted construct into a helper does not change the count.
+func withHelpers(w *core.World, fi *core.FuncInfo, depth int) []*core.FuncInfo {
+	out := []*core.FuncInfo{fi}
+	seen := map[*types.Func]bool{fi.Obj: true}
+	frontier := []*core.FuncInfo{fi}
+	for d := 0; d < depth; d++ {
+		var next []*core.FuncInfo
+		for _, cur := range frontier {
+			ast.Inspect(cur.Decl, func(n ast.Node) bool {
+				if c, ok := n.(*ast.CallExpr); ok {
+					if f := calleeOf(cur.Pkg.TypesInfo, c); f != nil && !seen[f] && f.Pkg() == fi.Obj.Pkg() {
+						if hd := w.DeclOf(f); hd != nil && hd.Decl.Body != nil {
+							seen[f] = true
+							out = append(out, hd)
+							next = append(next, hd)
+						}
+					}
+				}
+				return true
+			})
+		}
+		frontier = next
+	}
+	return out
 }
